@@ -4,8 +4,8 @@ set -u
 patch=$1; id=$2; tier=${3:-quick}
 cd /repo || exit 2
 if [ -n "$(git status --porcelain)" ]; then echo "/repo not clean"; exit 2; fi
-git apply --3way "$patch" 2>/dev/null || git apply "$patch" || { echo "PATCH DOES NOT APPLY"; git checkout -- . ; exit 2; }
-git reset -q 2>/dev/null
-trap 'cd /repo && git checkout -- . && git clean -fdq' EXIT
+trap 'cd /repo && git reset -q --hard HEAD && git clean -fdq' EXIT
+git apply "$patch" 2>/dev/null || git apply -C1 "$patch" 2>/dev/null || git apply --3way "$patch" 2>/dev/null || { echo "PATCH DOES NOT APPLY"; exit 2; }
+if grep -rq '^<<<<<<< ' --include=*.go . ; then echo "PATCH DOES NOT APPLY (conflict)"; exit 2; fi
 cd /verif && ./run.sh "$id" "$tier"
 echo "exit=$?"
